@@ -113,6 +113,12 @@ KINDS = [
     ('crashj-b', 'GET', '/crashj', {'headers': {'Accept': 'application/json', 'X-Why': 'stock empty'}}),
     ('hv-flag', 'GET', '/hv/flag', {}),
     ('hv-num', 'GET', '/hv/num', {}),
+    # what the request says about its client (credentials, proxies, script name, an attribute the application put on the request):
+    # once for an authenticated client behind proxies, once for an anonymous one
+    ('who-a', 'GET', '/whoami', {'headers': {'Authorization': 'Basic YWxpY2U6czNjcjN0', 'X-Forwarded-For': '10.0.0.7, 10.9.9.9', 'X-User': 'alice',
+                                              'X-Requested-With': 'XMLHttpRequest', 'X-Script-Name': '/tenant-alice'},
+                                  'REMOTE_ADDR': '192.0.2.1', 'qs': 'view=private'}),
+    ('who-b', 'GET', '/whoami', {}),
 ]
 NK = len(KINDS)
 
@@ -212,6 +218,15 @@ def fresh_app():
         return 'trace set'
     app.route('/listen', 'GET', listen)
     app.route('/setenv', 'GET', setenv)
+
+    def whoami():
+        rq = app.request
+        seen = getattr(rq, 'user', None)                 # nobody has put it on THIS request yet
+        if 'X-User' in rq.headers:
+            rq.user = rq.headers['X-User']
+        return repr((seen, getattr(rq, 'user', None), rq.auth, rq.remote_route, rq.remote_addr, rq.is_xhr, rq.script_name, rq.url,
+                     rq.fullpath, sorted(k for k in rq.keys() if k.startswith('HTTP_')), rq.content_type, rq.content_length))
+    app.route('/whoami', 'GET', whoami)
     dbg = om.Ombott({'debug': True})
 
     def boom():
